@@ -13,9 +13,11 @@ import (
 	"crypto/cipher"
 	"fmt"
 	"sort"
+	"time"
 
 	"golang.org/x/crypto/chacha20poly1305"
 	"verif/ref/aeadref"
+	"verif/ref/aeadsteer"
 	"verif/vf"
 )
 
@@ -105,10 +107,12 @@ type variant struct {
 func run(c *vf.Ctx) {
 	pls, als := ptLens(c.Thorough), adLens()
 	c.Rule(fmt.Sprintf("full grid path{asm(AVX2),generic} x {New,NewX} x %d plaintext lengths (every 0..%d, every k*64-1/k*64/k*64+1 to 8192, k*16-1/k*16/k*16+1 to 2048, 65535..65537, 70001) x "+
-		"%d AD lengths (every 0..33 incl. 13; 47..49, 63..65, 255..257, 600) x dst{nil,prefix+spare,prefix+capacity-1,prefix+exact (only the middle two above 1024 bytes; thorough: above 2048), IN PLACE Seal(plaintext[:0]) / Open(ciphertext[:0]) with exact and with spare capacity, inputs copied per call, at every length} x value classes (key,nonce,plaintext,AD drawn diagonally from the alphabet); "+
+		"%d AD lengths (every 0..33 incl. 13; 47..49, 63..65, 255..257, 600) x dst{nil,prefix+spare,prefix+capacity-1,prefix+exact (only the middle two above 1024 bytes; thorough: above 2048), IN PLACE Seal(plaintext[:0]) / Open(ciphertext[:0]) with exact capacity at every length and with spare capacity up to the same bound, inputs copied per call} x value classes (key,nonce,plaintext,AD drawn diagonally from the alphabet); "+
 		"each point: Seal == dst||RFC-model ciphertext||tag, Open(that) == dst||plaintext, inputs unmodified; non-trivial = distinct (path,variant,ptLen,adLen) with ptLen>=1; "+
-		"oracle = verif/ref/aeadref (plain block function + math/big Poly1305, RFC KATs)", len(pls), map[bool]int{false: 1024, true: 8192}[c.Thorough], len(als)))
-	c.Assume("math/big arithmetic is correct; values outside the alphabet are not enumerated (Poly1305 carry corner cases inside the AEAD assembly cannot be steered through the ChaCha20-derived one-time key)")
+		"plus the STEERED-ACCUMULATOR family: for {New,NewX} x ciphertext lengths %v x AD lengths %v, messages crafted with math/big (one free 16-byte ciphertext block solved, nonce/filler varied) so that the AEAD's own Poly1305 accumulator, "+
+		"right before the lengths block and right before the final reduction, has low limb in {0,1,2^64-adLen-1,2^64-adLen,2^64-1,2^64-5,2^64-6} x middle limb {0,2^64-1} x top limb {0..3}, or equals 0..4, p-5..p+4, 2^130..2^130+4; sealed and opened (nil and in-place dst) on both paths; "+
+		"oracle = verif/ref/aeadref (plain block function + math/big Poly1305, RFC KATs)", len(pls), map[bool]int{false: 1024, true: 8192}[c.Thorough], len(als), aeadsteer.Lens, aeadsteer.ADLens))
+	c.Assume("math/big arithmetic is correct; values outside the alphabet are not enumerated; Poly1305 carry corner cases inside the AEAD code are reached through crafted messages for the listed accumulator targets only (limb values of intermediate blocks are not steered)")
 	c.Assume("the amd64 assembly is exercised on this CPU's feature set only")
 
 	variants := []variant{
@@ -148,6 +152,14 @@ func run(c *vf.Ctx) {
 			}
 		}
 	}
+
+	// steered-accumulator family: messages crafted with math/big so that the AEAD's own Poly1305
+	// accumulator reaches chosen limb values right before the lengths block / the final reduction
+	t0 := time.Now()
+	steered, attempted := aeadsteer.Family(c, 32)
+	c.Set("steered_crafting_seconds", time.Since(t0).Seconds())
+	c.Set("steered_cases", len(steered))
+	c.Set("steered_targets_attempted", attempted)
 
 	initial := chacha20poly1305.VerifC01UseAVX2()
 	c.Set("cpu_selected_path", map[bool]string{true: "avx2-asm", false: "generic"}[initial])
@@ -206,7 +218,7 @@ func run(c *vf.Ctx) {
 				for dm := 0; dm < nDst; dm++ {
 					// quick tier, long inputs: one allocating and one in-place dst mode (the two
 					// branches of the append logic); nil and exact-capacity repeat those branches
-					if (n > 1024 && !c.Thorough || n > 2048) && (dm == dstNil || dm == dstExact) {
+					if (n > 1024 && !c.Thorough || n > 2048) && (dm == dstNil || dm == dstExact || dm == dstInPlaceSpare) {
 						continue
 					}
 					det := func() map[string]any {
@@ -297,5 +309,76 @@ func run(c *vf.Ctx) {
 					"last_tag": vf.Hex8(want[len(want)-16:])})
 			}
 		})
+		runSteered(c, ph.name, steered)
 	}
+}
+
+// runSteered seals and opens the crafted messages on the currently selected path.
+func runSteered(c *vf.Ctx, path string, cases []*aeadsteer.Case) {
+	c.ParallelFor(len(cases), func(i int) {
+		sc := cases[i]
+		vname, mk := "New", chacha20poly1305.New
+		if len(sc.Nonce) == chacha20poly1305.NonceSizeX {
+			vname, mk = "NewX", chacha20poly1305.NewX
+		}
+		aead, err := mk(sc.Key)
+		if err != nil {
+			c.Violation(vname+" rejects a 32-byte key", err.Error())
+			return
+		}
+		n := len(sc.Plaintext)
+		want := append(append([]byte(nil), sc.Ciphertext...), sc.Tag[:]...)
+		det := func(mode string) map[string]any {
+			return map[string]any{"path": path, "variant": vname, "ptLen": n, "adLen": len(sc.AD), "dst": mode, "steered": sc.Stage.String(), "target": sc.Target.Name,
+				"accumulator_before_lengths_block": fmt.Sprintf("%x", sc.HPre), "accumulator_before_final_reduction": fmt.Sprintf("%x", sc.VFinal),
+				"key": fmt.Sprintf("%x", sc.Key), "nonce": fmt.Sprintf("%x", sc.Nonce), "plaintext": fmt.Sprintf("%x", sc.Plaintext)}
+		}
+		for _, mode := range []string{"nil", "in-place"} {
+			var got []byte
+			pn, v, _ := vf.Protect(func() {
+				if mode == "nil" {
+					got = aead.Seal(nil, sc.Nonce, append([]byte(nil), sc.Plaintext...), sc.AD)
+				} else {
+					buf := make([]byte, n, n+16)
+					copy(buf, sc.Plaintext)
+					got = aead.Seal(buf[:0], sc.Nonce, buf, sc.AD)
+				}
+			})
+			c.Eval(1)
+			if pn {
+				c.Violation(fmt.Sprintf("%s/%s Seal panics on valid input", path, vname), map[string]any{"at": det(mode), "panic": fmt.Sprint(v)})
+				continue
+			}
+			if len(got) != n+16 || !bytes.Equal(got[:n], sc.Ciphertext) {
+				c.Violation(fmt.Sprintf("%s/%s Seal ciphertext != RFC 8439 model", path, vname), det(mode))
+			} else if !bytes.Equal(got[n:], sc.Tag[:]) {
+				d := det(mode)
+				d["got_tag"], d["want_tag"] = fmt.Sprintf("%x", got[n:]), fmt.Sprintf("%x", sc.Tag)
+				c.Violation(fmt.Sprintf("%s/%s Seal tag != RFC 8439 model", path, vname), d)
+			}
+			var out []byte
+			var oerr error
+			pn, v, _ = vf.Protect(func() {
+				in := append([]byte(nil), want...)
+				if mode == "nil" {
+					out, oerr = aead.Open(nil, sc.Nonce, in, sc.AD)
+				} else {
+					out, oerr = aead.Open(in[:0], sc.Nonce, in, sc.AD)
+				}
+			})
+			c.Eval(1)
+			switch {
+			case pn:
+				c.Violation(fmt.Sprintf("%s/%s Open panics on valid input", path, vname), map[string]any{"at": det(mode), "panic": fmt.Sprint(v)})
+			case oerr != nil:
+				c.Violation(fmt.Sprintf("%s/%s Open rejects the RFC 8439 sealed message", path, vname), det(mode))
+			case !bytes.Equal(out, sc.Plaintext):
+				c.Violation(fmt.Sprintf("%s/%s Open result != dst||plaintext", path, vname), det(mode))
+			}
+		}
+		c.Nontrivial(fmt.Sprintf("%s/%s/steered/%d/%d/%s/%s", path, vname, n, len(sc.AD), sc.Stage, sc.Target.Name))
+		if i%997 == 0 {
+			c.Sample(map[string]any{"path": path, "variant": vname, "steered": sc.Stage.String(), "target": sc.Target.Name, "ptLen": n, "adLen": len(sc.AD), "tag": fmt.Sprintf("%x", sc.Tag)})
+		}
+	})
 }
